@@ -77,6 +77,8 @@ type Tree struct {
 	ByName map[string]xpath.Datum // non-nil: byname mode
 	// identity mode: nodes whose last element has one of these names have the empty string as value
 	EmptyNames map[string]bool
+	// identity mode: nodes whose last element has one of these names have this number as value
+	NumNames   map[string]float64
 	Calls      []Call
 	FailAt     map[int]bool // 1-based callback indices that fail
 	NCalls     int
@@ -171,6 +173,11 @@ func (e *Entry) GetValue() (xpath.Datum, error) {
 	}
 	if len(e.path) > 0 && e.t.EmptyNames[e.path[len(e.path)-1].Name] {
 		return xpath.NewLiteralDatum(""), nil
+	}
+	if len(e.path) > 0 {
+		if v, ok := e.t.NumNames[e.path[len(e.path)-1].Name]; ok {
+			return xpath.NewNumDatum(v), nil
+		}
 	}
 	return xpath.NewLiteralDatum(e.Identity()), nil
 }
